@@ -33,6 +33,11 @@ def build_sig_class(deco, params, H):
 
     ns = dict(state=smm.state, timed_state=smm.timed_state, default_state=smm.default_state, Base=smm.StateMachine, H=H)
     plist = ", ".join(("self",) + tuple(params))
+    if H.posonly and params:
+        # positional-only markers are legal: the decorators reject only *args, **kwargs and keyword-only parameters
+        k = H.posonly if H.posonly <= len(params) else len(params)
+        parts = ["self"] + list(params)
+        plist = ", ".join(parts[:k + 1] + ["/"] + parts[k + 1:])
     kw = ", ".join(f"{p}={p}" for p in params)
     src = "class M(Base):\n"
     if deco == "state":
@@ -54,6 +59,7 @@ def sig_path(c, job):
     smc.install_env(c, clock)
     H = SigRec()
     H.clock = clock
+    H.posonly = job.get("posonly", 0)
     M = build_sig_class(deco, params, H)
     sm = M()
     smc._NTID[0] += 1
@@ -68,7 +74,12 @@ def sig_path(c, job):
         if deco != "default":
             sm.engage()
         n = len(clock.reads)
-        sm.execute()
+        try:
+            sm.execute()
+        except Exception as e:
+            c.prove("C03.sig state-function-callable-with-its-own-signature", False,
+                    info=dict(deco=deco, params=list(params), posonly=H.posonly, exc=repr(e)[:120]))
+            return
         nows.append(clock.reads[n])
     got = [kw for name, kw, t in H.calls if name == "x"]
     c.summary = dict(deco=deco, params=list(params), calls=[[n, {k: v for k, v in kw.items()}] for n, kw, _ in H.calls])
@@ -111,9 +122,12 @@ class C03(SMSpec):
 
     def jobs(self, tier):
         sig = [dict(kind="sig", deco=d, params=list(p)) for d in ("state", "timed", "default") for p in SUBSETS]
+        sig += [dict(kind="sig", deco=d, params=list(p), posonly=k) for d in ("state", "timed", "default")
+                for p in SUBSETS if len(p) >= 2 for k in (1, len(p))]
         if tier == "quick":
             hist = ([mkjob(s, 3, 2) for s in ("S1", "S3", "S4", "S5")] + [mkjob(s, 5, 0, ext=False) for s in ("S2", "S6")]
-                    + [mkjob("S8", 4, 1, variant=1)] + [self.twinjob("S1", 3, 0, variant=2), self.twinjob("S2", 4, 0, variant=1)])
+                    + [mkjob("S8", 4, 1, variant=1)] + [self.twinjob("S1", 3, 0, variant=2), self.twinjob("S2", 4, 0, variant=1)]
+                    + [mkjob("S6", 5, 0, ext=False, rewrite=True, variant=3), mkjob("S2", 4, 0, ext=False, rewrite=True, variant=2)])
         else:
             hist = ([mkjob(s, 4, 2, variant=1) for s in ("S1", "S3", "S4", "S5")]
                     + [mkjob(s, 3, 3, ext_per_iter=2, nsn_depth=2, variant=2) for s in ("S1", "S4")]
